@@ -189,7 +189,10 @@ def probe_key(job):
     return fp.h((pr['markup'], pr['selector'], pr['parser'], pr.get('target'), sorted((pr.get('namespaces') or {}).items())))
 
 
-PAIRS = [('bs4.select', 'sv.select'), ('bs4.select_one', 'sv.select_one'), ('bs4.css.iselect', 'sv.select'),
+PAIRS = [('bs4.select.limit1', 'sv.select.limit1'), ('bs4.select.limit_kw', 'sv.select.limit1'),
+         ('bs4.select.compiled', 'sv.select'), ('bs4.css.iselect.limit2', 'sv.iselect.limit2'),
+         ('bs4.css.escape', 'sv.escape'), ('bs4.select.default_ns', 'sv.select.recorded_ns'),
+         ('bs4.select', 'sv.select'), ('bs4.select_one', 'sv.select_one'), ('bs4.css.iselect', 'sv.select'),
          ('bs4.css.match', 'sv.match'), ('bs4.css.closest', 'sv.closest'), ('bs4.css.filter', 'sv.filter'),
          ('sv.compiled.select', 'sv.select')]
 
@@ -208,16 +211,19 @@ def judge(job, res, rc, stderr):
         return {'oracle': 'b-agree', 'detail': 'probe could not import/parse', 'error': pr['fatal']}
     if job['probe'].get('invalid'):
         # a malformed selector: every entry point must raise, and the same exception type
-        kinds = {k: (v.get('exc') if isinstance(v, dict) else 'returned') for k, v in pr.items() if k != 'n_elements'}
+        kinds = {k: (v.get('exc') if isinstance(v, dict) else 'returned') for k, v in pr.items()
+                 if k != 'n_elements' and not k.endswith('escape')}
         if len(set(kinds.values())) != 1 or 'returned' in kinds.values():
             return {'oracle': 'b-agree', 'detail': 'a malformed selector is not rejected uniformly', 'outcomes': kinds}
-        pr = {k: (v if k == 'n_elements' else {'exc': v.get('exc')}) for k, v in pr.items()}
+        pr = {k: (v if (k == 'n_elements' or k.endswith('escape')) else {'exc': v.get('exc')}) for k, v in pr.items()}
         res['probe'] = pr
     else:
         for k, v in pr.items():
             if isinstance(v, dict) and 'exc' in v:
                 return {'oracle': 'b-agree', 'detail': f'{k} raised', 'error': v}
     for a, b in PAIRS:
+        if a not in pr and b not in pr:
+            continue
         if pr.get(a) != pr.get(b):
             return {'oracle': 'b-agree', 'detail': f'{a} != {b}', 'left': pr.get(a), 'right': pr.get(b)}
     if res.get('submodule_binding_errors'):
